@@ -806,8 +806,10 @@ Inductive op : Type :=
 | OSubListAppend (k attr v : Z)
 | OSubStatus (k t st it : Z)
 | OPathAppend (p : path) (v : Z)                   (* <list reached from the object through p>.append(v), e.g. obj.trace[t].names *)
-| OAliasAttr (name : Z) (p : path).                (* obj.name = <the object's own object at p>, e.g. m.mine = m.names : the user
+| OAliasAttr (name : Z) (p : path)                 (* obj.name = <the object's own object at p>, e.g. m.mine = m.names : the user
                                                       creates aliasing between two entries of one object *)
+| OReplaceSeries (name : Z) (vs : list Z).         (* obj.name = <ndarray> : an array is no Sequence, so __setattr__ writes its
+                                                      VALUES in place (self._name[:] = value); a shape mismatch raises *)
 
 Definition is_empty_trace (h : heap) (r : loc) (t : Z) : bool :=
   Nat.eqb (arr_len h r [V N_trace; t; A N_values]) 0.
@@ -881,6 +883,11 @@ Definition compile_op (K : consts) (h : heap) (r : loc) (o : op) : list action :
     if zmem x (scalars_path h r [A N_index]) then []
     else if zmem x (scalars_path h r [A N_attributes]) then [ASet [] (A x) (SAlias p)]
     else if own_scalar h r (A N_strict) =? k_false K then add_attribute_acts x (SAlias p)
+    else []
+  | OReplaceSeries name vs =>
+    let x := resolve_alias h r name in
+    if zmem x (scalars_path h r [A N_index]) then
+      if Nat.eqb (length vs) (arr_len h r [V x]) then [AReplace [V x] vs] else []
     else []
   end.
 
@@ -998,12 +1005,35 @@ Definition linker_solve_ops (t : Z) (subs : list (Z * list (Z * Z))) (passes : n
 
 Inductive hevent : Type :=
 | HOps (i : nat) (os : list op)
-| HEv (e : event).
+| HEv (e : event)
+| HCopySeries (i j : nat) (srcname dstname : Z)    (* roots[i].dstname = roots[j].srcname : whole-series assignment whose VALUE is
+                                                      another object's array (same dtype): the values are copied, not the array *)
+| HAddVarFrom (i j : nat) (srcname dstname : Z)    (* roots[i].add_variable(dstname, roots[j].srcname) : np.full(len(span), array) *)
+| HInitFrom (ci : nat) (a : iargs) (j : nat) (srcname dstname : Z).
+                                                   (* cls(span, ..., dstname=roots[j].srcname) : an initial value that is another
+                                                      object's array *)
 
 Definition run_hevent (K : consts) (s : state) (e : hevent) : state :=
   match e with
   | HOps i os => fold_left (fun s o => run_fevent K s (FOp i o)) os s
   | HEv e => run_event K s e
+  | HCopySeries i j srcname dstname =>
+    match nth_error (sroots s) j with
+    | Some rj => run_fevent K s (FOp i (OReplaceSeries dstname (scalars_path (sh s) rj [V srcname])))
+    | None => s
+    end
+  | HAddVarFrom i j srcname dstname =>
+    match nth_error (sroots s) j with
+    | Some rj => run_fevent K s (FOp i (OAddVariable dstname (arr_dtype (sh s) rj [V srcname]) (scalars_path (sh s) rj [V srcname])))
+    | None => s
+    end
+  | HInitFrom ci a j srcname dstname =>
+    match nth_error (sroots s) j with
+    | Some rj =>
+      run_event K s (EInit ci (mkIargs (ia_span a) (ia_n a) (ia_strict a) (ia_dtype a) (ia_adt a) (ia_default a) (ia_engine a)
+                                       ((dstname, scalars_path (sh s) rj [V srcname]) :: ia_initial a) (ia_linker a)))
+    | None => s
+    end
   end.
 
 Definition run_hevents (K : consts) (s : state) (es : list hevent) : state := fold_left (run_hevent K) es s.
